@@ -507,8 +507,9 @@ impl ClusterActor {
 
             'iter: while let Some(commits) = match iter
                 .next_batch(
+                    // at least 1: the end sequence is inclusive, and `next_batch(0)` yields nothing
                     (effective_end_sequence.saturating_sub(last_read_sequence) as usize)
-                        .min(DEFAULT_BATCH_SIZE),
+                        .clamp(1, DEFAULT_BATCH_SIZE),
                 )
                 .await
             {
